@@ -163,6 +163,8 @@ def main():
                                 tab, " ".join(str(x) for x in getattr(golay, tab))))
                     pyargs.append(golay)
                     leanargs += ["tab_" + fld for fld, _ in t[1]]
+                elif isinstance(t, tuple) and not t[1]:
+                    pyargs.append(getattr(pymod, t[0])())       # a class without state (KMP)
                 else:
                     raise SystemExit("selftest: no generator for parameter type %r of %s" % (t, spec["func"]))
             for key in ranges:
@@ -170,6 +172,22 @@ def main():
             if spec["func"] == "bcdTointConvert":
                 pyargs[0] = abs(pyargs[0]) % (1 << 40)          # the Python loop never ends on a negative argument
                 leanargs[0] = lean_int(pyargs[0])
+            if spec["func"] in ("KMP.partial", "KMP.search", "string_matching_boyer_moore_horspool"):
+                # small alphabets so that occurrences, overlaps and fall-backs happen; the empty pattern too, except where
+                # the Python loop would never end (Horspool, empty pattern, non-empty text: the translation says Err.fuel)
+                alpha = rng.choice([b"ab", b"ab", b"abc", bytes([0, 255]), bytes(range(256))])
+                rb = lambda n: bytes(rng.choice(alpha) for _ in range(n))
+                pat = rb(rng.choice([0, 1, 1, 2, 2, 3, 3, 4, 6]))
+                text = rb(rng.choice([0, 1, 2, 3, 5, 8, 13, 21, 40]))
+                if pat and rng.random() < 0.5:
+                    k = rng.randrange(len(text) + 1)
+                    text = text[:k] + pat + text[k:]
+                if spec["func"] == "KMP.partial":
+                    pyargs[-1] = pat; leanargs[-1] = lean_bytes(pat)
+                else:
+                    if spec["func"].startswith("string") and not pat and text:
+                        pat = b"a"
+                    pyargs[-2:] = [text, pat]; leanargs[-2:] = [lean_bytes(text), lean_bytes(pat)]
             if spec["func"] == "endianness_swap":
                 pyargs[1] = rng.choice([2, 2, 4, 4, 0, 1, 3, -2, -4, 8, rand_int(rng)])
                 leanargs[1] = lean_int(pyargs[1])
